@@ -299,7 +299,7 @@ ITEMS = {
     'parse_variable_name_list': g(119, ret='r', loops={0: wloop()}, proof=[loop_bu(W_COMMA)]),
     'parse_global_name_list': g(120, ret='r', loops={0: wloop()}, proof=[loop_bu(W_COMMA)]),
     'parse_stats': g(
-        190, ensures='gkeep(old(p), final(p))',
+        190, attrs='#[verifier::spinoff_prover]', ensures='gkeep(old(p), final(p))',
         loops={
             0: wloop('gkeep(old(p), p)') + ' /*@C02.stats.terminates*/',
             1: """invariant
@@ -325,20 +325,20 @@ decreases grem(p) /*@C02.stats.recovery-terminates*/""",
         ensures="""r is Ok ==> gprog(old(p), final(p)) /*@C02.stat.progress*/,
         r is Err && !gprog(old(p), final(p)) ==> !sp_stat_start(final(p).current_token) /*@C02.stat.err-progress-or-not-a-statement-start*/,
         gkeep(old(p), final(p))"""),
-    'parse_if': bump_first(140, loops={0: wloop(M_INV)}, proof=[loop_bu(r'while p\.current_token\(\) == LuaTokenKind::TkElseIf')]),
+    'parse_if': bump_first(140, attrs='#[verifier::spinoff_prover]', loops={0: wloop(M_INV)}, proof=[loop_bu(r'while p\.current_token\(\) == LuaTokenKind::TkElseIf')]),
     'parse_elseif_clause': bump_first(132),
     'parse_else_clause': bump_first(131),
     'parse_while': bump_first(139),
     'parse_do': bump_first(138),
-    'parse_for': bump_first(137, loops={0: wloop(M_INV)}, proof=[loop_bu(W_COMMA)]),
+    'parse_for': bump_first(137, attrs='#[verifier::spinoff_prover]', loops={0: wloop(M_INV)}, proof=[loop_bu(W_COMMA)]),
     'parse_function': bump_first(136),
     'parse_func_name': g(
         126, ret='r', body_first=HIDE_PLAIN,
         proof=[(r'let m = p\.mark\(LuaSyntaxKind::NameExpr\);', 'after', 'proof { assert(m_live(&m, p)); }')],
         loops={0: wloop('cm.start < p.events@.len(), p.events@[cm.start as int] is NodeStart')}),
-    'parse_local': bump_first(135),
+    'parse_local': bump_first(135, attrs='#[verifier::spinoff_prover]'),
     'try_parse_const': g(
-        149, ret='r', requires=NOT_EOF, proof=[mark_live()],
+        149, attrs='#[verifier::spinoff_prover]', ret='r', requires=NOT_EOF, proof=[mark_live()],
         ensures="""r is Err ==> gprog(old(p), final(p)),
         r matches Ok(cm) ==> gprog(old(p), final(p)) || cm.kind is None,
         gkeep(old(p), final(p))"""),
@@ -355,7 +355,7 @@ decreases grem(p) /*@C02.stats.recovery-terminates*/""",
     'parse_goto': bump_first(129),
     'parse_empty_stat': bump_first(128),
     'try_parse_global_stat': g(
-        150, ret='r', requires=NOT_EOF, proof=[mark_live(), mark_live('m2')],
+        150, attrs='#[verifier::spinoff_prover]', ret='r', requires=NOT_EOF, proof=[mark_live(), mark_live('m2')],
         ensures="""r is Err ==> gprog(old(p), final(p)),
         r matches Ok(cm) ==> gprog(old(p), final(p)) || cm.kind is None,
         gkeep(old(p), final(p))"""),
@@ -365,7 +365,7 @@ decreases grem(p) /*@C02.stats.recovery-terminates*/""",
         r matches Ok(cm) ==> gprog(old(p), final(p)) || cm.kind is None,
         gkeep(old(p), final(p))"""),
     'parse_assign_or_expr_or_soft_keyword_stat': g(
-        170, ret='r', proof=[mark_live(), loop_bu(W_COMMA)],
+        170, attrs='#[verifier::spinoff_prover]', ret='r', proof=[mark_live(), loop_bu(W_COMMA)],
         loops={0: wloop(M_INV)},
         ensures="""r is Ok ==> gprog(old(p), final(p)) /*@C02.stat.progress*/,
         old(p).current_token is TkName ==> gprog(old(p), final(p)) /*@C02.stat.progress*/,
@@ -469,10 +469,11 @@ MUTANTS = [
      'expect': r'LuaParser::set_current_token_kind'},
 ]
 TRUSTED = [
-    'ASSUMED (new precondition of parse_chunk, added by BASE_PATCH): nosoft — no token of the stream has kind TkContinue or TkConst. Basis: the lexer '
-    '(lexer/lua_lexer.rs) never constructs these two kinds (grep: they are written only by set_current_token_kind in grammar/lua/stat.rs, immediately '
-    'before the bump that consumes the token); not proved here (a postcondition of LuaLexer::tokenize in unit c01_reader would discharge it). WITHOUT it '
-    'parse_stats does not terminate: see the finding in the DESIGN log / final report (token stream [TkContinue, TkName])',
+    'PRECONDITION of parse_chunk added by BASE_PATCH: nosoft — no token of the stream has kind TkContinue or TkConst. DISCHARGED: unit c01_reader proves '
+    '`no_soft_kinds(tokens)` as a postcondition of LuaLexer::tokenize (label C02.lexer.no-soft-keyword-kinds; name_to_kind maps "continue"/"const" to '
+    'TkName), unit c01_compose proves no_soft_kinds(toks) ==> nosoft_at(toks, 0) (lemma_g4_nosoft; predicates shared through '
+    'units/c02_grammar/nosoft_iface.rs). WITHOUT it parse_stats does not terminate (latent: token stream [TkContinue, TkName]); that the tokens handed '
+    'to parse_chunk are the lexer output is read off LuaParser::parse (lua_parser.rs:50-72), as for tokens_ok',
     'error REPORTING is removed by rules gs-drop-error-report / gs-drop-msg-closure-arg / gs-drop-msg-closure-param (-> vx_note_error()): TRUSTED that '
     '`t!(..)` (rust-i18n), LuaParseError::syntax_error_from, LuaParser::push_error (iterator chain over `errors` + Vec::push), `p.errors.push` and the '
     'message closures `|| t!(..)` do not panic and touch nothing but `errors` (a field projected out of LuaParser)',
